@@ -50,6 +50,8 @@ LINES = [
     [(72, 81), (88, 81)],            # 11 inside the disjoint square
     [(12, 21), (48, 21)],            # 12 both end points (and the whole outline's vertices) inside the U, the segment crosses its notch
     [(52, 84), (57, 91)],            # 13 inside the corner of triangle 10 next to its last vertex
+    [(24, 24), (26, 26)],            # 14 a 2 x 2 px diagonal inside the squares: 2.83 px long although it spans only 2 px along either axis
+    [(40, 42), (42, 42), (42, 40)],  # 15 a 2 x 2 px hook, 4 px long
 ]
 HEIGHTS = [4, 2]
 BOUNDS = {'quick': dict(max_regions=2), 'thorough': dict(max_regions=3)}
